@@ -759,6 +759,14 @@ _KNOWN_TRIANGLES = {
 }
 
 
+# lattice triangles whose plane passes through a hanging node of the split face of
+# "cube-half-hang" (the same solid as "cube-half", face x=1/2 split along y=3/2): dropped
+_KNOWN_HANG_TRIANGLES = {
+    ("cube-half-hang", ((0, 0, 2), (0, 2, 0), (2, 0, 2))),
+    ("cube-half-hang", ((-1, 0, 2), (-1, 3, -1), (2, 0, 2))),
+}
+
+
 def known_finding(case, viol):
     """Three exactly characterised degenerate placements of a polygon relative to the
     polyhedron (see ``_contact``). The class is recomputed here from the concrete *input*
@@ -783,6 +791,8 @@ def known_finding(case, viol):
         main = tuple(tuple(int(x) for x in p) for p in last)
         if integral and (ph, main) in _KNOWN_TRIANGLES:
             return "C44-triangle-edge-in-face-plane-through-polyhedron-edge"
+        if integral and (ph, main) in _KNOWN_HANG_TRIANGLES:
+            return "C44-triangle-through-hanging-node-of-split-face"
         return None
     except Exception:
         return None
